@@ -719,10 +719,79 @@ def rule_incumbent(ctx):
     return res.finish(1)
 
 
+def rule_prefix(ctx):
+    """A zero-allocated buffer that is filled row by row under a running counter holds data only in its first `counter`
+    rows.  Whoever reads it goes through the prefix `slice(s![0..counter, ..])`; the whole buffer also contains the
+    unfilled all-zero rows, which then take part as if they were observations (an initial centroid at the origin)."""
+    from .layout import with_parents
+    res = RuleResult("R-C09-prefix", "buffers of the k-means initialisers that are filled under a running counter are read only through the filled prefix")
+    F = ctx.facts()
+    n = 0
+    scanned = 0
+    for fn in F.all_fns():
+        d = fn["d"]
+        if d["krate"] != "linfa_clustering" or "k_means" not in d["path"] and "KMeans" not in (d.get("self_adt") or "") or fn.get("exp"):
+            continue
+        scanned += 1
+        c = fn["crate"]
+        r = Render(c)
+        inits = {}
+        for y in walk(fn["body"]):
+            if y.get("k") == "LetStmt" and y.get("init") is not None and y["pat"].get("k") == "Bind":
+                inits[y["pat"]["local"]] = (y, y["pat"]["name"])
+        # (buffer, counter) pairs: `buf.row_mut(cnt)` / `buf[[cnt, ..]]` written and `cnt += 1`
+        counters = set(peel_refs(y["l"]).get("local") for y in walk(fn["body"]) if y.get("k") == "AssignOp" and y["op"] == "+" and peel_refs(y["l"]).get("k") == "Path")
+        pairs = set()
+        for y in walk(fn["body"]):
+            if y.get("k") == "MethodCall" and y["name"] in ("row_mut", "index_axis_mut") and y["args"]:
+                b = peel_refs(y["recv"])
+                a = peel_refs(y["args"][-1])
+                if b.get("k") == "Path" and b.get("local") in inits and a.get("k") == "Path" and a.get("local") in counters:
+                    i0 = inits[b["local"]][0]["init"]
+                    if any(z.get("k") == "Call" and (c.dfn(strip(z["f"]).get("def")) or {}).get("name") in ("zeros", "default", "from_elem", "uninit") for z in walk(i0) if strip(z.get("f") or {}).get("k") == "Path"):
+                        pairs.add((b["local"], a["local"]))
+        for buf, cnt in sorted(pairs):
+            n += 1
+            key = fn_key(fn)
+            res.instance("%s : buffer `%s` filled under counter `%s`" % (key, inits[buf][1], inits.get(cnt, (None, "?"))[1]))
+            bad = None
+            for y, anc in with_parents(fn["body"]):
+                if y.get("k") != "Path" or y.get("local") != buf:
+                    continue
+                # climb through refs to the using node
+                i = len(anc) - 1
+                while i >= 0 and anc[i].get("k") in ("Ref",):
+                    i -= 1
+                par = anc[i] if i >= 0 else None
+                if par is None:
+                    continue
+                if par.get("k") == "LetStmt":
+                    continue
+                if par.get("k") == "MethodCall" and peel_refs(par["recv"]) is y or (par.get("k") == "MethodCall" and peel_refs(par["recv"]).get("local") == buf and any(z is y for z in walk(par["recv"]))):
+                    nm = par["name"]
+                    if nm in ("row_mut", "index_axis_mut", "nrows", "ncols", "dim", "len_of", "raw_dim", "shape"):
+                        continue
+                    if nm in ("slice", "slice_mut", "slice_axis", "slice_axis_mut", "slice_move") and any(z.get("k") == "Path" and z.get("local") == cnt for a_ in par["args"] for z in walk(a_)):
+                        continue
+                    bad = (par, "`.%s(..)`" % nm)
+                    break
+                bad = (par, "a use as `%s`" % par.get("k"))
+                break
+            if bad:
+                res.violate("%s : unfilled-rows-read:%s" % (key, inits[buf][1]), "`%s` is filled row by row under the counter `%s`, but it is read through %s, not through the filled prefix: the rows that were never filled (all zeros) take part as if they were data" % (inits[buf][1], inits.get(cnt, (None, "?"))[1], bad[1]), fn_loc(fn, bad[0].get("ln")))
+            else:
+                res.ok()
+    res.instance("k-means functions scanned: %d" % scanned)
+    res.ok()
+    if n < 1:
+        res.missing_anchor("a counter-filled buffer in the k-means initialisers (k_means_para's candidates)")
+    return res.finish(2)
+
+
 def rules(tier):
     from . import carry, c04
     from . import precision
     return [rule_argmin, rule_best, rule_fresh, rule_init, rule_memorder, rule_incumbent, c07.rule_degree, rule_scanexit, rule_counts,
             carry.make_clone_rule("R-C09-clone", {"linfa_clustering"}, 10), carry.make_setter_rule("R-C09-override", {"linfa_clustering"}, 10), c04.make_carry_rule("R-C09-carry", {"KMeansParams"}, 4),
             precision.make_rule("R-C09-precision", lambda f: f["d"]["krate"] == "linfa_clustering" and any(x in f["d"]["path"] + " " + (f["d"].get("self_adt") or "") for x in ("k_means", "KMeans")), 30, "linfa-clustering k_means"),
-            carry.make_accessor_rule("R-C09-accessor", {"linfa_clustering"}, 10), carry.make_ctor_rule("R-C09-ctor", {"linfa_clustering"}, 4)]
+            carry.make_accessor_rule("R-C09-accessor", {"linfa_clustering"}, 10), carry.make_ctor_rule("R-C09-ctor", {"linfa_clustering"}, 4), rule_prefix]
